@@ -136,6 +136,9 @@ class Config:
     sym_iter_max: int = 2
     max_depth: int = 14
     max_paths: int = 20000
+    max_steps: int = 50000
+    max_seconds: float = 60.0
+    record_loads: set = field(default_factory=set)  # field names whose reads on repo objects are recorded as effects
     no_inline: set = field(default_factory=set)  # repo functions treated as opaque effects
     record_calls: set = field(default_factory=set)  # repo functions inlined *and* recorded as effects
     dyn_stubs: List[Callable] = field(default_factory=list)  # name -> stub or None (for families of callee names)
@@ -173,6 +176,7 @@ class Run:
         self.seq = 0
         self.with_stack: List[str] = []
         self.loading: set = set()
+        self.steps = 0
 
     # -- choices
     def choose(self, n: int, loc: str, text: str) -> int:
@@ -284,14 +288,18 @@ class Interp:
     def explore(self, body: Callable[["Run"], Value]) -> List[Outcome]:
         """Enumerate all feasible paths of `body` (a function of the Run that sets up
         arguments and calls into the interpreter)."""
+        import time as _time
         work: List[List[int]] = [[]]
         outs: List[Outcome] = []
         nruns = 0
+        t0 = _time.time()
         while work:
             script = work.pop()
             nruns += 1
             if nruns > self.cfg.max_paths:
                 raise AnalysisError(f"path budget exceeded ({self.cfg.max_paths})")
+            if nruns % 64 == 0 and _time.time() - t0 > self.cfg.max_seconds:
+                raise AnalysisError(f"time budget of one exploration exceeded ({self.cfg.max_seconds}s, {nruns} paths)")
             run = Run(self, script)
             out: Optional[Outcome] = None
             try:
@@ -534,6 +542,9 @@ class Interp:
             self.exec_stmt(run, st, env)
 
     def exec_stmt(self, run: Run, st, env: Env):
+        run.steps += 1
+        if run.steps > self.cfg.max_steps:
+            raise CutoffSig(f"step budget {self.cfg.max_steps} exhausted at {self.locof(st)}")
         m = getattr(self, "st_" + type(st).__name__, None)
         if m is None:
             raise Unsupported(f"statement kind {type(st).__name__} at {self.locof(st)}")
@@ -1128,6 +1139,8 @@ class Interp:
             c = run.cell(base)
             if isinstance(c, HObj):
                 if name in c.fields:
+                    if name in self.cfg.record_loads:
+                        run.effect(f"load:{self.describe(run, base)}.{name}", (), node=node)
                     return c.fields[name]
                 if c.cls and c.cls in self.index.classes:
                     v = self.class_lookup(run, c.cls, name)
